@@ -252,17 +252,18 @@ def format_libtensor_contraction(tensors: list[str], factors: list[str],
 
 def translate_adcc_names(name: str, indices: tuple[Index]) -> str:
     """Translates tensor names specifically for adcc."""
-    if name.startswith(tensor_names.eri):
+    base = name.split("_")[0]
+    if base == tensor_names.eri:
         space = "".join(s.space[0] for s in indices)
         return f"hf.{space}"
-    elif name.startswith(tensor_names.fock):
+    elif base == tensor_names.fock:
         space = "".join(s.space[0] for s in indices)
         return f"hf.f{space}"
     return name
 
 
 def translate_libadc_names(name: str, indices: tuple[Index]) -> str:
-    if name.startswith(tensor_names.eri):
+    if name.split("_")[0] == tensor_names.eri:
         space = "".join(s.space[0] for s in indices)
         return f"i_{space}"
     elif name.startswith("t2eri"):
